@@ -13,7 +13,7 @@ def run(ctx, res):
                 "yield points) issue mixed calls (bool, find, iterate, find-all, replace with 20 distinct replacements, split, timed and stack-limited matches) on 8 shared "
                 "Regexps and the process-wide buffer pools, built with the race detector; every result must equal the result of the same call on a fresh Regexp, a race report "
                 "is a violation, and the hook events (stamped with a global sequence number after acquisition / before release) are validated against Pool.tla by Obs_Pool: "
-                "a runner is never used by two goroutines at once, every scan starts from the reset state, a runner returns to the pool with the full program, the cache stays "
+                "a runner is never used by two goroutines at once, the cache's critical sections (held open by the hook callback until a second goroutine could have entered) are disjoint, every scan starts from the reset state, a runner returns to the pool with the full program, the cache stays "
                 "bounded and consistent. evaluations = concurrent calls; traces = per-object event traces validated")
     poolobs.model(ctx, res, "Pool_quick.cfg" if ctx.tier == "quick" else "Pool.cfg")
     plans = [(8, 0, 60), (4, 2, 60), (32, 0, 25)] if ctx.tier == "quick" else [(8, 0, 300), (4, 2, 300), (32, 0, 150), (16, 1, 200), (64, 0, 60), (3, 3, 500)]
@@ -34,6 +34,12 @@ def run(ctx, res):
         poolobs.validate_events(ctx, res, d, f"conc-G{G}", ("pool.", "cache."))
         if k == 0:
             res.add_sample({"goroutines": G, "calls": d["steps"], "first_events": d["events"][:8]})
+    # schedule forcing inside the critical sections that Pool.tla models as one atomic step
+    for k, (G, n) in enumerate([(2, 40), (4, 30)] if ctx.tier == "quick" else [(2, 200), (4, 150), (8, 100)]):
+        d = json.loads(ctx.run_vh(["run-hist", "-mode", "mutex", "-g", str(G), "-n", str(n)]).stdout)
+        nev = poolobs.validate_events(ctx, res, d, f"mutex-G{G}", ("cache.",))
+        ctx.log(f"mutex G={G}: replace calls={d['steps']} critical-section events={nev}")
+        res.evaluations += d["steps"]
     res.assumptions += ["TLC", "the Go race detector is the observation instrument for data races", "events are logged after acquisition / before release, so logged ownership intervals lie inside the real ones",
                         "timing-out calls use a 25 ms timeout; the shared timeout clock itself is covered by C14"]
 
